@@ -21,7 +21,7 @@ MODULES = [
     "smtplib", "socketserver", "sre_parse", "stat", "statistics", "string", "stringprep", "struct",
     "subprocess", "symtable", "tabnanny", "tarfile", "textwrap", "threading", "timeit", "token",
     "tokenize", "trace", "traceback", "types", "typing", "urllib.parse", "uuid", "warnings", "wave",
-    "weakref", "zipfile",
+    "weakref", "zipfile", "harness.synthfuncs",
 ]
 
 BAD_OPS = {"RAISE_VARARGS", "RERAISE", "YIELD_VALUE", "RETURN_GENERATOR", "SETUP_FINALLY", "SETUP_WITH",
@@ -30,7 +30,7 @@ GEN_FLAGS = inspect.CO_GENERATOR | inspect.CO_COROUTINE | inspect.CO_ASYNC_GENER
 
 
 def eligible(fn: Any) -> bool:
-    code = getattr(fn, "__code__", None)
+    code = fn if isinstance(fn, types.CodeType) else getattr(fn, "__code__", None)
     if code is None:
         return False
     if code.co_flags & GEN_FLAGS:
@@ -76,11 +76,26 @@ def functions_of(modname: str) -> Iterator[Tuple[str, Callable[..., Any]]]:
                     yield from emit("%s.%s" % (name, an), a)
 
 
+def nested_code(ident: str, code: types.CodeType) -> Iterator[Tuple[str, Any]]:
+    """Code objects of lambdas, nested definitions and comprehensions inside a function: functions in their own right."""
+    for k in code.co_consts:
+        if isinstance(k, types.CodeType):
+            sub = "%s#%s@%d" % (ident, k.co_name, k.co_firstlineno)
+            yield sub, k
+            yield from nested_code(sub, k)
+
+
+def with_nested(modname: str) -> Iterator[Tuple[str, Any]]:
+    for ident, f in functions_of(modname):
+        yield ident, f
+        yield from nested_code(ident, f.__code__)
+
+
 def corpus(limit: int | None = None, stride: int = 1, offset: int = 0) -> List[Tuple[str, Callable[..., Any]]]:
     out: List[Tuple[str, Callable[..., Any]]] = []
     i = 0
     for m in MODULES:
-        for ident, f in functions_of(m):
+        for ident, f in with_nested(m):
             if not eligible(f):
                 continue
             if i % stride == offset % stride:
@@ -93,7 +108,7 @@ def corpus(limit: int | None = None, stride: int = 1, offset: int = 0) -> List[T
 
 def resolve(ident: str) -> Callable[..., Any]:
     modname, qual = ident.split(":", 1)
-    for i, f in functions_of(modname):
+    for i, f in with_nested(modname):
         if i == ident:
             return f
     raise KeyError(ident)
